@@ -14,7 +14,6 @@ Codec part  : SFTPAttrs / SFTPName encode -> decode for every case of the
               SftpAttrs table.
 """
 
-import asyncio
 import errno
 import os
 import shutil
